@@ -126,6 +126,12 @@ def run(F, rep, tier):
     rid = rep.rule("R16.8", "FeelType::is_equivalent and is_conformant, folded on every ordered pair of a universe of concrete types (simple, list, range, context, function; depth 2), "
                             "answer the relation the statement defines")
     universe = list(dict.fromkeys(UNIVERSE))
+    if tier == "thorough":
+        # the statement's universe to depth 1 over six simple types, plus the depth-2 types of the quick table: lists, ranges, contexts with 0..2 entries, functions with 0..2 parameters
+        S = list(SIMPLE)
+        gen = [L(t) for t in S] + [R(t) for t in S] + [C()] + [C(a=t) for t in S] + [C(b=t) for t in S[:3]] + [C(a=t, b=u) for t in S[:4] for u in S[:4]] + \
+              [Fn([], r) for r in S] + [Fn([p], r) for p in S[:4] for r in S[:4]] + [Fn([p, q], r) for p in S[:3] for q in S[:3] for r in S[:2]]
+        universe = list(dict.fromkeys(universe + gen))
     total = 0
     for fn, ref, word in ((T + "::is_equivalent", equivalent, "is equivalent to"), (T + "::is_conformant", conforms, "conforms to")):
         h = F.hir.get(fn)
@@ -150,7 +156,7 @@ def run(F, rep, tier):
             rep.undecided(rid, key, "%d of %d pairs do not fold: %s" % (len(unknown), ok + len(unknown), "; ".join(unknown[:2])))
         else:
             rep.ok(rid, key, "%d pairs fold to the answer of the statement%s" % (ok, (" (%d do not fold)" % len(unknown)) if unknown else ""))
-    rep.floor(rid, "pairs of types folded to a definite answer", total, 2000)
+    rep.floor(rid, "pairs of types folded to a definite answer", total, 2000 if tier != "thorough" else 20000)
 
 
 # ====================================================================================================== R16.9: coerced
